@@ -16,6 +16,7 @@ type Obs struct {
 	Verdict string   `json:"verdict"`
 	Out     []int    `json:"out"`
 	Corrupt bool     `json:"corrupt"`
+	Fuzzy   bool     `json:"fuzzy"` // the caller's uninitialised variable only counts as initialised: its value is garbage
 	Fired   []string `json:"fired"`
 	Res     []string `json:"res"` // per executed statement: own | caller | undef
 }
